@@ -20,7 +20,7 @@ DECIDED = [
 ]
 from rules import cbor_stream as _cs
 DECIDED = DECIDED + list(_cs.DECIDED)
-NOT_DECIDED = ["internals of the vendored cJSON and libcbor (only their call sites and their nesting limits)", "content-dependent facts (which byte values occur where)", "libc calls (strtod, sscanf, strftime)"]
+NOT_DECIDED = ["internals of the vendored cJSON beyond its nesting limit and depth accounting, and of libcbor beyond the item decoder's reads (STREAM)", "content-dependent facts (which byte values occur where)", "libc calls (strtod, sscanf, strftime)"]
 ASSUMPTIONS = list(LIB_ASSUMPTIONS) + ["aws_byte_cursor_advance/advance_nospec succeed iff len <= cursor->len (C01)", "a real memory view is shorter than PTRDIFF_MAX (used only for PROGRESS)"]
 
 FILES = ["source/xml_parser.c", "source/uri.c", "source/date_time.c", "source/encoding.c", "source/uuid.c", "source/host_utils.c", "source/json.c", "source/cbor.c"]
@@ -306,6 +306,9 @@ def analyse(ctx, replace=None, only=None, config="ship", hooks=None):
     if only and "stream" in only:
         cbor_stream.stream_bounds(R, ctx.program(cbor_stream.UNITS, config, replace=replace))
         return
+    if only and "cjson" in only:
+        cjson_nesting(ctx, R, config, replace)
+        return
     units = [u for u in library_units(ctx.ex.repo) if "external" not in u]
     P = ctx.program(units, config, replace=replace)
     fns = parser_functions(P)
@@ -415,6 +418,16 @@ def analyse(ctx, replace=None, only=None, config="ship", hooks=None):
     # the vendored CBOR item decoder underneath source/cbor.c: rules/cbor_stream.py
     if hooks.__class__ is ParserHooks:
         cbor_stream.stream_bounds(R, ctx.program(cbor_stream.UNITS, config, replace=replace))
+        cjson_nesting(ctx, R, config, replace)
+
+
+def cjson_nesting(ctx, R, config="ship", replace=None):
+    """the vendored JSON parser's recursion is bounded: limit tested before descent, and the depth counter is balanced so
+    that the limit means nesting depth (a counter that leaks or is decremented twice makes the limit meaningless)"""
+    from rules import cjson_depth
+    PJ = ctx.program([cjson_depth.CJ], config, replace=replace)
+    cjson_depth.nesting_limit(R, PJ, "RECUR")
+    cjson_depth.depth_balance(R, PJ, "RECUR", names=("parse_array", "parse_object"))
 
 
 def recursion(R, P, fns, which=("self", "xml", "cjson")):
@@ -457,14 +470,7 @@ def recursion(R, P, fns, which=("self", "xml", "cjson")):
                         # the return reached through the error label
                         continue
             R.check(ev_dominates(t, push[0], pops[0], dom), "RECUR", "xml:pop-after-push", where(t, pops[0]), "pop follows the push on the normal exit")
-    cj = P.fn("parse_array", "cJSON.c") or P.fn("parse_array")
-    # cJSON nesting limit (call-site fact about the vendored parser)
-    for nm in ("parse_array", "parse_object"):
-        g = P.fn(nm)
-        if g is None or "cjson" not in which:
-            continue
-        okc = any("depth" in g.show(b.cond) and "1000" in g.show(b.cond).replace("CJSON_NESTING_LIMIT", "1000") for b in g.blocks.values() if b.cond is not None)
-        R.check(okc, "RECUR", "cjson:%s:nesting-limit" % nm, "source/external/cJSON.c", "vendored parser tests its nesting limit")
+
 
 
 def uri_state_machine(R, P):
@@ -742,6 +748,11 @@ def wrappers(R, P):
 
 
 MUTANTS = [dict(_m, scope={"stream": True}) for _m in _cs.MUTANTS] + [
+    {"name": "json-empty-object-decrements-twice", "file": "source/external/cJSON.c", "expect": "RECUR", "scope": {"cjson": True},
+     "old": "        goto success; /* empty object */", "new": "        input_buffer->depth--;\n        goto success; /* empty object */"},
+    {"name": "json-object-limit-after-descent", "file": "source/external/cJSON.c", "expect": "RECUR", "scope": {"cjson": True},
+     "old": "    if (input_buffer->depth >= CJSON_NESTING_LIMIT)\n    {\n        return false; /* to deeply nested */\n    }\n    input_buffer->depth++;\n\n    if (cannot_access_at_index(input_buffer, 0) || (buffer_at_offset(input_buffer)[0] != '{'))",
+     "new": "    if (input_buffer->depth > CJSON_NESTING_LIMIT + CJSON_NESTING_LIMIT * 1000000)\n    {\n        return false; /* to deeply nested */\n    }\n    input_buffer->depth++;\n\n    if (cannot_access_at_index(input_buffer, 0) || (buffer_at_offset(input_buffer)[0] != '{'))"},
     {"name": "ipv4-copy-fills-whole-buffer", "file": "source/host_utils.c", "expect": "CSTR", "scope": {"files": ["source/host_utils.c"], "rules": ["CSTR"]},
      "old": "    if (host.len > AWS_IPV4_STR_LEN - 1) {", "new": "    if (host.len > AWS_IPV4_STR_LEN) {"},
     {"name": "uuid-copy-not-zeroed", "file": "source/uuid.c", "expect": "CSTR", "scope": {"files": ["source/uuid.c"], "rules": ["CSTR"]},
